@@ -419,7 +419,8 @@ impl World {
         let tag = self.ops.len() as u32;
         let pkt = stamp(&spec.pkt, tag);
         let kind = kind_of(&pkt).expect("submit spec must be publish/subscribe/unsubscribe");
-        let timeout = spec.ack_timeout_ms.map(std::time::Duration::from_millis);
+        // u64::MAX stands for Duration::MAX (the largest value the options builders accept)
+        let timeout = spec.ack_timeout_ms.map(|ms| if ms == u64::MAX { std::time::Duration::MAX } else { std::time::Duration::from_millis(ms) });
         let now = self.now;
         let state_before = self.eng.state();
         let outcome = guarded(|| self.eng.submit(now, tag, &pkt, timeout));
